@@ -445,3 +445,41 @@ def _split_generic(s):
     if cur.strip():
         parts.append(cur)
     return parts
+
+
+# ---- `Self` in value / pattern position is spelled as the type it stands for -----------------------------------------------------------
+def expand_self(data):
+    """Inside `impl T { .. }` (and `impl Trait for T`), `Self { .. }`, `Self::Variant`, `Self(..)` in expressions and patterns are
+    rewritten to `T { .. }`, `T::Variant`, `T(..)`: one spelling for the rules, whichever the source uses."""
+    n = 0
+
+    def rewrite(node, name):
+        nonlocal n
+        stack = [node]
+        while stack:
+            x = stack.pop()
+            if isinstance(x, dict):
+                if x.get("k") in ("Struct", "Path", "PPath", "PStruct", "PTupleStruct") and isinstance(x.get("path"), str):
+                    p = x["path"]
+                    if p == "Self" or p.startswith("Self::"):
+                        x["path"] = name + p[4:]
+                        n += 1
+                stack.extend(v for v in x.values() if isinstance(v, (dict, list)))
+            elif isinstance(x, list):
+                stack.extend(v for v in x if isinstance(v, (dict, list)))
+
+    stack = [data]
+    while stack:
+        x = stack.pop()
+        if isinstance(x, dict):
+            if x.get("k") == "Impl" and isinstance(x.get("self_ty"), str):
+                base = re.sub(r"<.*", "", "".join(x["self_ty"].split())).split("::")[-1]
+                if re.fullmatch(r"[A-Za-z_]\w*", base or ""):
+                    for it in x.get("items", []):
+                        if it.get("k") == "Fn" and isinstance(it.get("body"), dict):
+                            rewrite(it["body"], base)
+                continue
+            stack.extend(v for v in x.values() if isinstance(v, (dict, list)))
+        elif isinstance(x, list):
+            stack.extend(v for v in x if isinstance(v, (dict, list)))
+    return n
